@@ -163,9 +163,9 @@ class _ArgSpy:
         return True, None
 
 
-def args_plain(d: int, ci: int, titan: bool, q: int) -> bool:
+def args_plain(d: int, ci: int, titan: int, q: int) -> bool:
     """
-    pre: 0x30 <= d <= 0x39 and 0 <= ci <= 3
+    pre: 0x30 <= d <= 0x39 and 0 <= ci <= 3 and 0 <= titan <= 2
     pre: 0x61 <= q <= 0x7a
     post: _
     """
@@ -175,8 +175,10 @@ def args_plain(d: int, ci: int, titan: bool, q: int) -> bool:
     ip = "203.0.113." + chr(d)
     sslobj = SSLObj(DERS[ci]) if ci < 3 else SSLObj(None)
     p, t, loop = make(hs, MiddlewareChain([spy]), hs, peer=(ip, 40000), ssl_object=sslobj)
-    if titan:
+    if titan == 1:
         p.data_received(mk(("titan://h/up" + chr(q) + ";size=1\r\nZ").encode()))
+    elif titan == 2:
+        p.data_received(mk(("titan://h/up" + chr(q) + ";size=0\r\n").encode()))
     else:
         p.data_received(mk(("gemini://H:1965/a" + chr(q) + "?k\r\n").encode()))
     loop.run_ready()
@@ -184,13 +186,13 @@ def args_plain(d: int, ci: int, titan: bool, q: int) -> bool:
         return V(False)
     url, got_ip, fp = spy.args
     want_fp = FPS[ci] if ci < 3 else None
-    want_url = ("titan://h/up" + chr(q) + ";size=1;mime=text/gemini") if titan else ("gemini://h/a" + chr(q) + "?k")
+    want_url = ("titan://h/up" + chr(q) + ";size=%d;mime=text/gemini" % (2 - titan)) if titan else ("gemini://h/a" + chr(q) + "?k")
     return V(got_ip == ip and fp == want_fp and url == want_url)
 
 
-def args_pyopenssl(d: int, ci: int, titan: bool) -> bool:
+def args_pyopenssl(d: int, ci: int, titan: int) -> bool:
     """
-    pre: 0x30 <= d <= 0x39 and 0 <= ci <= 3
+    pre: 0x30 <= d <= 0x39 and 0 <= ci <= 3 and 0 <= titan <= 2
     post: _
     """
     # PyOpenSSL backend: certificate travels through TLSServerProtocol -> TLSTransportWrapper -> _SSLObjectWrapper
@@ -200,7 +202,7 @@ def args_pyopenssl(d: int, ci: int, titan: bool) -> bool:
     conn = StubTLSConn(flights=1, peer_cert=CERTS[ci] if ci < 3 else None)
     outer, tcp, loop, conn, made = make_tls(hs, MiddlewareChain([spy]), hs, conn, peer=(ip, 40000, 0, 0))
     feed(outer, tcp, [("hs",)])
-    feed(outer, tcp, [("app", b"titan://h/up;size=1\r\nZ" if titan else b"gemini://h/a\r\n")])
+    feed(outer, tcp, [("app", [b"gemini://h/a\r\n", b"titan://h/up;size=1\r\nZ", b"titan://h/up;size=0\r\n"][titan])])
     loop.run_ready()
     if spy.args is None:
         return V(False)
@@ -281,10 +283,10 @@ OBLIGATIONS = [
        symbolic="1..2 components, invalid request line (fragment)", functions=FN, stubs=["FakeTransport", "MiniLoop"]),
     Ob("args_plain", args_plain, quick=300, thorough=900,
        symbolic="last character of the peer address (digit code point), a path character (a-z code point), presented certificate "
-                "(EC / Ed25519 / RSA / none), gemini or titan",
+                "(EC / Ed25519 / RSA / none), gemini / titan upload / titan delete",
        functions=FN, stubs=["FakeTransport(ssl_object)", "MiniLoop"]),
     Ob("args_pyopenssl", args_pyopenssl, quick=300, thorough=900,
-       symbolic="last character of the (IPv6) peer address, presented certificate (3 real / none), gemini or titan",
+       symbolic="last character of the (IPv6) peer address, presented certificate (3 real / none), gemini / titan upload / titan delete",
        functions=FN, stubs=["StubTLSConn", "FakeTransport", "MiniLoop"]),
     Ob("side_effects", side_effects, quick=400, thorough=1200,
        symbolic="2 components x 5 outcomes, gemini / titan upload / titan delete; real StaticFileHandler and FileUploadHandler on ModelFS",
